@@ -154,6 +154,7 @@ def main(argv=None):
     return r
 
   bounded_done = set()
+  bounded_outcome = {}
   for r in results:
     if r['status'] in ('vacuous',):
       broken.append(f'{r["target"]}: {r["error"]}')
@@ -183,32 +184,41 @@ def main(argv=None):
                                 kind='replayed-counterexample', solver=dict(result=o['result'], backend=o['backend'], model=o.get('model'))))
           decided = True
           break
-    # 2. bounded native search for a witness
-    if not decided and r.get('bounded') and r['bounded'] not in bounded_done:
-      bounded_done.add(r['bounded'])
-      before = len(violations)
-      br = run_bounded(r['bounded'], f'{r["target"]}: {r["status"]}')
-      if len(violations) > before:      # a witness that is not a listed known finding
+    # 2. bounded native search for a witness (run once per stand-in, its outcome is reused)
+    def strict_failures():
+      # an obligation that is discharged on the pinned tree (baseline) and now has a model (`sat`, not
+      # `unknown`), on a path that used no abstraction of an opaque call
+      return [o for o in failed if o['result'] == 'sat' and not o['abstracted']
+              and baseline is not None and o['name'] in baseline['clause_ids']]
+
+    if not decided and r.get('bounded'):
+      name = r['bounded']
+      if name not in bounded_done:
+        bounded_done.add(name)
+        before = len(violations)
+        br = run_bounded(name, f'{r["target"]}: {r["status"]}')
+        bounded_outcome[name] = (br is not None, len(violations) > before)
+      ran_ok, found = bounded_outcome.get(name, (False, False))
+      if found:      # a witness that is not a listed known finding
         decided = True
-      elif br is not None:
-        # no native witness
-        strict = [o for o in failed if o['result'] == 'sat' and o['loopfree'] and not o['abstracted']
-                  and baseline is not None and o['name'] in baseline['clause_ids']]
+      elif ran_ok:
+        strict = strict_failures()
         if strict:
           o = strict[0]
           record_violation(dict(check='obligation', obligation=o['name'], witness=o.get('witness'), kind='no-failing-input-found',
-                                detail=f'{o["text"]}', solver=dict(result='sat', backend=o['backend'], model=o.get('model'))))
+                                detail=f'{o["text"]}', solver=dict(result='sat', backend=o['backend'], model=o.get('model'),
+                                                                 loop_free_path=o['loopfree'])))
         else:
           proof_lost.append(dict(target=r['target'], status=r['status'], error=(r['error'] or '')[:500],
-                                 failed=[o['name'] for o in failed][:5], bounded=r['bounded']))
+                                 failed=[o['name'] for o in failed][:5], bounded=name))
         decided = True
     if not decided:
-      strict = [o for o in failed if o['result'] == 'sat' and o['loopfree'] and not o['abstracted']
-                and baseline is not None and o['name'] in baseline['clause_ids']]
+      strict = strict_failures()
       if strict:
         o = strict[0]
         record_violation(dict(check='obligation', obligation=o['name'], witness=o.get('witness'), kind='no-failing-input-found',
-                              detail=f'{o["text"]}', solver=dict(result='sat', backend=o['backend'], model=o.get('model'))))
+                              detail=f'{o["text"]}', solver=dict(result='sat', backend=o['backend'], model=o.get('model'),
+                                                               loop_free_path=o['loopfree'])))
       elif r['status'] in ('failed',) and r['kind'] == 'lemma':
         broken.append(f'lemma {r["target"]} no longer proves: {[o["name"] for o in failed][:3]}')
       else:
